@@ -1,10 +1,82 @@
-(* C31 — property theorems only. *)
+(* C31 — property theorems only.  [run] is the model of the Processor (Model.v); [truth_of] the latest version of
+   everything and who is connected (Spec.v); [valid] the calculation graph's contract; [lin (groups s) ms] says that
+   [ms] is one of the orders in which the Go code may put the stream [s] on the channel (map iterations are free);
+   [client ms] is what a policy-sync client holds after applying [ms] in order. *)
 From Coq Require Import List Arith Bool Permutation.
-From Verif.C31 Require Import Model Spec Proofs.
+From Verif.C31 Require Import Model Spec Proofs Final Final2.
 Import ListNotations.
 
-(* Once the Processor has closed a channel (leave, re-join, endpoint removed), its content never changes. *)
+(* The Processor never panics on a history the calculation graph can produce. *)
+Theorem c31_valid_no_panic : forall ops, valid ops = true -> snd (run ops) = None.
+Proof. exact no_panic. Qed.
+Print Assumptions c31_valid_no_panic.
+
+(* After ANY valid history, for EVERY connected workload and EVERY admissible order of its stream: the client holds
+   exactly its own endpoint at its latest version, exactly the policies and profiles that endpoint lists, exactly the
+   IP sets those mention, all at their latest versions, every service account and namespace at its latest version, and
+   the in-sync flag ([expected], Spec.v: complete AND minimal). *)
+Theorem c31_complete_latest : forall ops w j uid, valid ops = true ->
+  lookup w (t_conn (truth_of ops)) = Some (j, uid) ->
+  exists ei s, lookup w (eps (fst (run ops))) = Some ei /\ e_out ei = Some (j, s) /\
+    forall ms, lin (groups s) ms -> expected (truth_of ops) w (client ms) = true.
+Proof. exact complete_latest. Qed.
+Print Assumptions c31_complete_latest.
+
+(* For every channel ever handed to the Processor (open or closed) and every admissible order: after EVERY single
+   message the client is referentially closed ([ri]): the policies/profiles its endpoint lists are held, the IP sets
+   the held policies/profiles mention are held - so IP sets come before their users, policies/profiles before the
+   endpoint, and removals only once nothing held refers to the removed thing; endpoint messages carry the own id. *)
+Theorem c31_refs_before_use : forall ops, valid ops = true ->
+  forall j w c s, In (j, (w, c, s)) (channels (fst (run ops))) ->
+  forall ms, lin (groups s) ms -> snd (apply_checked w cinit ms) = true.
+Proof. exact refs_before_use. Qed.
+Print Assumptions c31_refs_before_use.
+
+(* A leave with the current join UID closes the workload's channel at that operation; the closed channel keeps exactly
+   that content whatever follows, and right after the leave the workload has no open channel.  (A later join gets a
+   new channel index, and c31_complete_latest says that new stream alone is complete.) *)
+Theorem c31_nothing_after_leave : forall ops more w j uid, valid (ops ++ OLeave w uid :: more) = true ->
+  lookup w (t_conn (truth_of ops)) = Some (j, uid) ->
+  let st := fst (run (ops ++ [OLeave w uid])) in
+  let st' := fst (run (ops ++ OLeave w uid :: more)) in
+  (exists c s, In (j, (w, c, s)) (closed st) /\ In (j, (w, c, s)) (closed st'))
+  /\ (forall ei, lookup w (eps st) = Some ei -> e_out ei = None).
+Proof. exact after_leave. Qed.
+Print Assumptions c31_nothing_after_leave.
+
+(* Whatever the Processor closed (leave, re-join over a live connection, endpoint removed) is never written again. *)
 Theorem c31_closed_channel_frozen : forall st o st', step st o = Some st' ->
   forall x, In x (closed st) -> In x (closed st').
 Proof. exact step_closed_mono. Qed.
 Print Assumptions c31_closed_channel_frozen.
+
+(* A workload only ever receives endpoint messages for itself, and holds no policy, profile or IP set beyond what
+   its endpoint needs ("minimal" exactly as the code achieves it: the needed set is that of the CURRENT endpoint). *)
+Theorem c31_only_own_endpoint : forall ops w j uid, valid ops = true ->
+  lookup w (t_conn (truth_of ops)) = Some (j, uid) ->
+  exists ei s, lookup w (eps (fst (run ops))) = Some ei /\ e_out ei = Some (j, s) /\
+    forall ms, lin (groups s) ms ->
+      Forall (fun m => own w m = true) ms
+      /\ (forall p, lookup p (c_pol (client ms)) <> None -> In p (t_needed_pols (truth_of ops) w))
+      /\ (forall p, lookup p (c_prof (client ms)) <> None -> In p (t_needed_profs (truth_of ops) w))
+      /\ (forall s', lookup s' (c_ips (client ms)) <> None -> In s' (t_needed_ips (truth_of ops) w)).
+Proof. exact only_own. Qed.
+Print Assumptions c31_only_own_endpoint.
+
+(* Non-vacuity: a valid history with IP sets, a policy, a profile, two workloads, a re-join and a leave; workload 0
+   is connected on its second channel, whose stream has unordered groups with more than one message. *)
+Definition ex_rules (v : nat) (a b : list id) : rules := mkRules v [[a; []; []; []; []; []; []; []; b]] [].
+Definition ex_ops : list op :=
+  [ OIPSetUpdate 0 [3; 1]; OIPSetUpdate 1 [2]; OIPSetUpdate 2 [5];
+    OPolUpdate 0 (ex_rules 1 [0] [1]); OProfUpdate 0 (ex_rules 2 [2] []);
+    OSAUpdate 0 3; ONSUpdate 0 4; OJoin 0 1;
+    OWepUpdate 0 (mkEp 5 [mkTier [0] [0]] [0]); OWepUpdate 1 (mkEp 6 [] [0]);
+    OJoin 1 2; OInSync; OJoin 0 3; OPolUpdate 0 (ex_rules 7 [1] []); OIPSetDelta 1 [4] [2];
+    OLeave 1 2; OWepUpdate 0 (mkEp 8 [] []) ].
+Example c31_example :
+  valid ex_ops = true
+  /\ lookup 0 (t_conn (truth_of ex_ops)) = Some (2, 3)
+  /\ snd (run ex_ops) = None
+  /\ existsb (fun jc => existsb (fun g => Nat.ltb 1 (length (snd g))) (snd (snd jc))) (channels (fst (run ex_ops))) = true
+  /\ length (channels (fst (run ex_ops))) = 3.
+Proof. vm_compute. repeat split. Qed.
